@@ -524,7 +524,10 @@ impl World {
         let idx = self.recs.len();
         self.by_hash.insert(rec.hash, idx);
         self.recs.push(rec);
-        let _ = self.builder.add_block(b);
+        // universe mode: the builder only has to *store* blocks so that Block::create finds the
+        // parent and grand-parent; it never runs fork choice or validation (a tampered block
+        // must remain available as a parent)
+        self.builder.bc.blocks.insert(b.hash, b);
         idx
     }
 
